@@ -707,6 +707,25 @@ def sent_numeric_attrs(repo, tier="quick"):
                             cgv = is_call(strip_wrappers(ev_[1]), "networkx.get_node_attributes", "networkx.get_edge_attributes")
                             if cgv and len(cgv[0]) >= 2 and cgv[0][1][0] == "const":
                                 key = cgv[0][1][1]
+                        if key is None:
+                            # the key is a variable ranging over a list of attribute names (a literal, or a parameter's default)
+                            kt = c[2] if c[0] == "sub" else (mg[2][0] if mg and mg[2] else None)
+                            ek_ = elem_of(kt) if kt is not None else None
+                            names_ = ()
+                            if ek_ and ek_[0] == "elem":
+                                coll_ = strip_wrappers(ek_[1])
+                                if coll_[0] in ("tuple", "list", "set"):
+                                    names_ = [x[1] for x in coll_[1] if x[0] == "const"]
+                                elif coll_[0] == "param":
+                                    dflt = fi.defaults().get(coll_[1])
+                                    try:
+                                        from ..model import fold_const as _fc
+                                        names_ = list(_fc(dflt, fi.module)) if dflt is not None else ()
+                                    except (ValueError, TypeError):
+                                        names_ = ()
+                            hit_ = [k_ for k_ in names_ if k_ in NUMERIC_KEYS]
+                            if hit_ and (node_attr(c) is not None or (mg and (node_attr(("sub", mg[0], kt)) is not None or elem_of(mg[0]) is not None or mg[0][0] == "sub"))):
+                                key = hit_[0]
                         if key in NUMERIC_KEYS:
                             bad.append(e)
                             break
